@@ -39,15 +39,28 @@ def run_t1(prop, P, tier):
     with ctx.Pool(min(16, len(units))) as pool:
         res = pool.map(_t1_worker, [(u, tier) for u in units], chunksize=1)
     obs = [core.Ob.from_json(o) for r in res for o in r]
-    # an obligation id may be shared between properties; keep order, drop exact duplicates
     seen, out = set(), []
+    meta = {'functions': [], 'units': units, 'trusted': []}
+    models_used, assumed, lemmas, dropped = set(), set(), set(), set()
     for o in obs:
+        if o.kind == 'meta':
+            m = json.loads(o.detail)
+            for f in m['functions']:
+                if f not in meta['functions']:
+                    meta['functions'].append(f)
+            models_used.update(m['models_used'])
+            assumed.update(m['assumed_contracts'])
+            lemmas.update(m['lemmas'])
+            dropped.update(m['dropped'])
+            continue
         if o.id in seen:
             continue
         seen.add(o.id)
         out.append(o)
-    from ttvc import units as U
-    meta = U.meta(units)
+    meta['trusted'] = ['model-table entry (A-NP): ' + x for x in sorted(models_used)] + \
+                      ['callee contract assumed at call sites (discharged by its own unit): ' + x for x in sorted(assumed)] + \
+                      ['lemma: ' + x for x in sorted(lemmas)] + \
+                      ['dropped by extraction: ' + x for x in sorted(dropped)]
     meta['t1_wall_s'] = round(time.time() - t0, 2)
     return out, meta
 
